@@ -26,7 +26,7 @@ def logit (p : α) : Option α :=
 
 /-- the body shared by both Box–Cox transforms once the argument is known to be admissible -/
 def boxcoxBody (x lambda : α) : α :=
-  if lambda == 0 then ln x else (1 - pow x lambda) / lambda
+  if lambda == 0 then ln x else (pow x lambda - 1) / lambda
 
 /-- `assert!(x > 0.)` then the body -/
 def boxcox (x lambda : α) : Option α :=
